@@ -265,6 +265,43 @@ def run(chk, ctx):
                    'y' if len(lost) == 1 else 'ies', ', '.join(lost),
                    'es' if len(lost) == 1 else ''),
                site='pamqp/base.py')
+    # method frames: a struct '?' field takes the truth value of anything
+    # (2, 'false', [0] all become 1), and an encode call that keeps its
+    # output on the object serves it again after the object has changed
+    from .. import layout as _L
+    from ..model import ClassInfo as _CI
+    from .c12 import input_effects
+    pol_ = _codec.FramePolicy(prog)
+    qbad, memo = [], []
+    for _, ci_ in ctx.index_mapping():
+        if not isinstance(ci_, _CI):
+            continue
+        e_ = _L.method_encode(ctx, pol_, ci_)
+        for t in T.subterms(e_['term']) if e_.get('term') is not None \
+                else ():
+            if t.op == 'pack' and '?' in t.args[0]:
+                fm_ = T.fmt(t.args[0])
+                for (ch_, _sz, _sg, _k), a_ in zip(fm_.values, t.args[1]):
+                    if ch_ == '?' and T.typeof(a_) != {'bool'}:
+                        qbad.append('%s: %s packed with %r' % (
+                            ci_.short, T.show(a_)[:40], t.args[0]))
+        for b_ in input_effects(e_['interp'], {e_['ref'].id}):
+            memo.append('%s: %s %s at %s' % (ci_.short, b_.kind,
+                                             str(b_.detail)[:40], b_.site))
+    he2_ = H.encode(ctx, pol_)
+    for b_ in input_effects(he2_['interp'], he2_['input_ids']):
+        memo.append('ContentHeader: %s %s at %s' % (
+            b_.kind, str(b_.detail)[:40], b_.site))
+    chk.ob('C10.L', "struct '?' fields", not qbad,
+           "no argument is packed through a '?' field" if not qbad else
+           "; ".join(sorted(set(qbad))[:3]) + ": any truthy value is sent "
+           "as 1 without an error", site='pamqp/base.py')
+    chk.ob('C10.L', 'encode keeps nothing on the object', not memo,
+           'frame.marshal stores nothing on the frame it encodes'
+           if not memo else 'frame.marshal stores on the object it encodes '
+           '(%s): a later call can emit bytes that no longer match the '
+           'object' % '; '.join(sorted(set(memo))[:2]),
+           site='pamqp/base.py')
     # key truncation must be announced
     truncation_check(chk, ctx)
     chk.assume('values of foreign types that subclass the guarded types '
